@@ -162,13 +162,28 @@ def observed_step_reads(tree, labels):
     steps = Rec({celtypes.StringType(l): val for l in labels})
     act = {"steps": steps, "inputs": celpy.json_to_cel({k: val for k in gen_cel.INPUTS} | {"x": [val, val]}),
            "parent": val, "locals": val, "resource": val}
+    import resource
+
+    soft, hard = resource.getrlimit(resource.RLIMIT_AS)
+    try:
+        # celpy can allocate gigabytes on a random expression (`string(list).all(el, el * x)`): cap it
+        with open("/proc/self/statm") as fh:
+            now = int(fh.read().split()[0]) * resource.getpagesize()
+        resource.setrlimit(resource.RLIMIT_AS, (now + (1 << 30), hard))
+    except Exception:
+        pass
     try:
         prog = cel_env().program(tree, functions=koreo_cel_functions)
-        import logging
         prog.logger.setLevel(logging.CRITICAL)
         prog.evaluate(act)
-    except Exception:  # evaluation errors are expected for random expressions
-        pass
+    except BaseException as e:  # evaluation errors (and MemoryError) are expected for random expressions
+        if isinstance(e, (KeyboardInterrupt, SystemExit)):
+            raise
+    finally:
+        try:
+            resource.setrlimit(resource.RLIMIT_AS, (soft, hard))
+        except Exception:
+            pass
     return set(Rec.read)
 
 
@@ -206,7 +221,7 @@ def _expression_batch(ck: Check, drv: LeanDriver, cases, evaluate_every: int, se
         # the property on the implementation
         bad = expr_oracle(src, named, got)
         if bad is None and e is not None and evaluate_every and serial % evaluate_every == 0 and got[0] == "ok" \
-                and len(src) < 160:
+                and len(src) < 160 and "*" not in src:
             seen = observed_step_reads(tree, LABELS)
             static_only = "steps[" not in src.replace('steps["', "").replace("steps['", "")
             names = set(steps_names(got[1]))
@@ -877,6 +892,8 @@ def run(tier: str) -> int:
         "unparsable switchOn / skipIf, two default cases, failed test cases): those specs are PermFail until edited",
     ]
     ck.prove(extractors=["CelTables"])
+    if tier == "thorough" and ck.build_ok:
+        ck.leanchecker()
     drv = LeanDriver("C14")
     r = rng("c14")
     quick = tier == "quick"
